@@ -551,7 +551,8 @@ def csr_assembly_rule(ctx):
                 r.ok(f"{label}, pass {rep + 1}: CSR == scatter-add")
 
 
-NARROW_INT = {"int8", "uint8", "int16", "uint16", "bool", "bool_", "byte", "ubyte", "short", "ushort"}
+# (booleans are not in the list: numpy adds booleans as a logical OR, a count of them never wraps to False)
+NARROW_INT = {"int8", "uint8", "int16", "uint16", "byte", "ubyte", "short", "ushort"}
 
 
 def pattern_structure_rule(ctx):
